@@ -100,6 +100,11 @@ pub async fn client(addr: SocketAddr, c: &Certs, backoff: BackoffStrategy) -> Re
 
 /// a QUIC connection that bypasses the client library
 pub async fn raw_connect(addr: SocketAddr, ca: &Path, cert: Option<(&Path, &Path)>) -> Result<quinn::Connection> {
+    raw_connect_window(addr, ca, cert, None).await
+}
+
+/// `stream_window`: the receive window this peer grants per stream (a peer that takes almost nothing)
+pub async fn raw_connect_window(addr: SocketAddr, ca: &Path, cert: Option<(&Path, &Path)>, stream_window: Option<u32>) -> Result<quinn::Connection> {
     let mut roots = rustls::RootCertStore::empty();
     roots.add(&rustls::Certificate(std::fs::read(ca)?))?;
     let builder = rustls::ClientConfig::builder().with_safe_defaults().with_root_certificates(roots);
@@ -109,7 +114,13 @@ pub async fn raw_connect(addr: SocketAddr, ca: &Path, cert: Option<(&Path, &Path
     };
     crypto.alpn_protocols = vec![b"hq-29".to_vec()];
     let mut endpoint = quinn::Endpoint::client("127.0.0.1:0".parse().unwrap())?;
-    endpoint.set_default_client_config(quinn::ClientConfig::new(Arc::new(crypto)));
+    let mut cc = quinn::ClientConfig::new(Arc::new(crypto));
+    if let Some(w) = stream_window {
+        let mut tc = quinn::TransportConfig::default();
+        tc.stream_receive_window(quinn::VarInt::from_u32(w));
+        cc.transport_config(Arc::new(tc));
+    }
+    endpoint.set_default_client_config(cc);
     let conn = endpoint.connect(addr, "localhost")?.await.context("raw connect")?;
     Ok(conn)
 }
